@@ -299,11 +299,11 @@ func (c *e2eConn) doOp(p E2E, o *Op) {
 		var args interface{}
 		switch codec {
 		case svc.CodecJSON:
-			args = &svc.JBad{F: func() {}}
+			args = &svc.JBad{F: func() {}, Slow: o.Spec.Counter%2 == 0}
 		case svc.CodecPB:
-			args = &svc.PBad{}
+			args = &svc.PBad{Slow: o.Spec.Counter%2 == 0}
 		case svc.CodecCode:
-			args = &svc.CBad{}
+			args = &svc.CBad{Slow: o.Spec.Counter%2 == 0}
 		default:
 			o.Kind = KNoMethod
 			o.Rec = rig.Do(c.caller, o.Form, codec, "S.Nope", o.Spec, o.BufCap, nil)
@@ -571,11 +571,62 @@ func RunE2EOn(env Env, p E2E, start func(cfg rig.Config, seed int64) (*rig.Rig, 
 			}
 		}
 		hungOps, hungStreams := 0, 0
+		// where did a hung call get stuck? the wire taps and the handler ledger tell
+		reqSeq := map[string]uint64{}
+		reqConn := map[string]int{}
+		resSeen := map[string]bool{}
+		if env.Virtual() {
+			for _, c := range conns {
+				if c.pair == nil {
+					continue
+				}
+				v := View(c.pair, p.Cfg.Header, p.Cfg.Codec)
+				for _, q := range v.Reqs {
+					if q.ID != "" && !q.HasUp {
+						reqSeq[q.ID] = q.Seq
+						reqConn[q.ID] = c.idx
+					}
+				}
+				for _, q := range v.Reqs {
+					if q.ID == "" || q.HasUp {
+						continue
+					}
+					for _, x := range v.Ress {
+						if x.Seq == q.Seq {
+							resSeen[q.ID] = true
+						}
+					}
+				}
+			}
+		}
+		execs, _, _ := r.Ledger.Snapshot()
+		execd := map[string]int{}
+		for _, e := range execs {
+			execd[e.ID]++
+		}
 		for _, o := range all {
 			if !o.isDone() {
 				hungOps++
 				if env.Virtual() && hungOps <= 3 {
-					out.add("C02", "C02/e2e/unary-hang/"+o.Kind, fmt.Sprintf("%s %s (%s, id %s) has not returned although the system is quiescent and no fault was injected", o.Form, o.Kind, p.Cfg, o.Spec.ID()), nil)
+					id := o.Spec.ID()
+					_, written := reqSeq[id]
+					switch {
+					case written && execd[id] == 0 && o.Kind != KNoMethod && o.Kind != KUndecodable && !resSeen[id]:
+						out.add("C04", "C04/e2e/request-never-executed", fmt.Sprintf("the request of %s %s (id %s) was written to a live connection but the server never executed or answered it; the caller is still waiting at quiescence (%s)", o.Form, o.Kind, id, p.Cfg), nil)
+					case written && !resSeen[id]:
+						out.add("C04", "C04/e2e/request-never-answered", fmt.Sprintf("the request of %s %s (id %s) was written to a live connection (executed %d times) but no response was ever written; the caller is still waiting at quiescence (%s)", o.Form, o.Kind, id, execd[id], p.Cfg), nil)
+					default:
+						out.add("C02", "C02/e2e/unary-hang/"+o.Kind, fmt.Sprintf("%s %s (%s, id %s) has not returned although the system is quiescent and no fault was injected (request written=%v, response on the wire=%v)", o.Form, o.Kind, p.Cfg, id, written, resSeen[id]), nil)
+					}
+					failingNeighbour := false
+					for _, x := range all {
+						if x.Spec.Conn == o.Spec.Conn && x != o && x.Kind != KCall && x.Kind != KPing {
+							failingNeighbour = true
+						}
+					}
+					if failingNeighbour && o.Kind == KCall {
+						out.add("C06", "C06/e2e/neighbour-never-completed", fmt.Sprintf("a well-formed %s (id %s) sharing its connection with failing calls never completed (%s)", o.Form, id, p.Cfg), nil)
+					}
 				}
 			}
 		}
@@ -807,6 +858,9 @@ func judgeE2E(out *Outcome, p E2E, r *rig.Rig, conns []*e2eConn, all []*Op, stre
 			okCalls++
 			if d := rig.CheckReply(rec); d != "" {
 				out.add("C01", "C01/e2e/wrong-reply", fmt.Sprintf("%s id %s (%s): %s", o.Form, id, cfgs, d), map[string]interface{}{"form": o.Form, "args_len": len(rec.Args), "reply_len": len(rec.Reply)})
+				if failingPresent {
+					out.add("C06", "C06/e2e/neighbour-wrong-reply", fmt.Sprintf("a well-formed %s (id %s) in flight together with failing calls got a reply that is not f(own args): %s (%s)", o.Form, id, d, cfgs), nil)
+				}
 			}
 			if len(ex) != 1 {
 				out.add("C04", "C04/e2e/exec-count", fmt.Sprintf("successful call %s was executed %d times (%s)", id, len(ex), cfgs), nil)
